@@ -1,4 +1,6 @@
-/- op "c15": run the steady-state loop on the exact flow of a linear network, then the error plumbing -/
+/- op "c15": `simulate_to_steady_state().get_result()` on a simulator whose integrator holds (t0, y0), with the exact
+flow of a linear network as the integrator step; answers the loop outcome, the result, the scan row and the integrator's
+state afterwards -/
 import Driver.Wire
 import MxlVerif.Model.C15
 import MxlVerif.Generated.C15Loop
@@ -20,32 +22,38 @@ def handle (j : Json) : Except String Json := do
   let y0 ← jList jRat (← field j "y0")
   let tol ← jRat (← field j "tol")
   let rel ← jBool (← field j "rel")
-  let step := affine C d
+  -- family "blowup": dx/dt = x² on the first component (exact flow x/(1-100x) until the singularity), relaxing others
+  let step := match fieldD j "blowup" .null with
+    | .null => affine C d
+    | _ => blowStep (C.map fun row => row.headD 0) d
   let small := if rel then smallRel tol else smallAbs tol
-  let integ := fun (_ : Unit) => ssRun copies step small maxSteps y0
-  -- `prior` = number of rows the simulator already holds from earlier successful calls
+  -- the state the integrator holds when the search is called: (`t0`, `y0`); `orig` = the initial conditions
+  let t0 ← jRat (fieldD j "t0" (.str "0"))
+  let orig ← match fieldD j "orig" .null with
+    | .null => pure y0
+    | x => jList jRat x
+  let shift ← match fieldD j "shift" .null with
+    | .null => pure none
+    | x => some <$> jRat x
+  let loop := ssRun copies Gen.checks step okState small maxSteps (if Gen.continues then y0 else orig)
+  -- `prior` = number of rows the simulator already holds from earlier successful calls (the last one at `t0`)
   let prior ← jNat (fieldD j "prior" (.num 0))
   let sim0 : Sim (List Rat) :=
-    if prior == 0 then Sim.fresh else ⟨[], some (List.replicate prior (0, y0))⟩
-  let sim := simulateToSteadyState Gen.stepSize sim0 integ
+    ⟨[], if prior == 0 then none else some (List.replicate (prior - 1) (0, orig) ++ [(t0, y0)]), shift, ⟨t0, y0, orig⟩⟩
+  let sim := simulateToSteadyState Gen.continues copies Gen.checks step okState small maxSteps Gen.stepSize sim0
   let res := getResult sim
   let row := workerRow res
-  -- squared consecutive differences over tol², for the harness's near-threshold filter
-  let upto := match integ () with | .steady n _ => n + 1 | .noSteadyState => 3
-  let ratios := (List.range upto).map fun m =>
-    let a := iter step m y0
-    let b := step a
-    let dv := if rel then vdiv (vsub b a) a else vsub b a
-    normSq dv / (tol * tol)
-  let outJ : Json := match integ () with
+  let outJ : Json := match loop with
     | .steady n y => Json.mkObj [("outcome", "steady"), ("n", .num n), ("y", ratsJ y)]
     | .noSteadyState => Json.mkObj [("outcome", "NoSteadyState")]
+    | .integrationFailure => Json.mkObj [("outcome", "IntegrationFailure")]
   let resJ : Json := match res with
-    | .ok rows => .arr #[.str "ok", .arr (rows.map fun r => Json.arr #[.num r.1, ratsJ r.2]).toArray]
+    | .ok rows => .arr #[.str "ok", .arr (rows.map fun r => Json.arr #[ratJ r.1, ratsJ r.2]).toArray]
     | .error .noSteadyState => .arr #[.str "error", .str "NoSteadyState"]
     | .error .integrationFailure => .arr #[.str "error", .str "IntegrationFailure"]
     | .error .other => .arr #[.str "error", .str "other"]
   let rowJ : Json := match row with | some y => ratsJ y | none => .null
-  pure (Json.mkObj [("loop", outJ), ("result", resJ), ("row", rowJ), ("ratios", ratsJ ratios)])
+  pure (Json.mkObj [("loop", outJ), ("result", resJ), ("row", rowJ),
+    ("integ", Json.mkObj [("t0", ratJ sim.integ.t0), ("y0", ratsJ sim.integ.y0)])])
 
 end Driver.H_c15
